@@ -10,12 +10,12 @@ import random
 
 from props import _time as T
 
-FEATS = ('send', 'tempo', 'spawn', 'pause', 'rand', 'raise')
+FEATS = ('send', 'tempo', 'spawn', 'pause', 'rand', 'raise', 'cond')
 
 
 def sig(mode, tr, at, why):
     ops = {i['op'] for b in tr['prog']['routines'].values() for i in b}
-    feat = '+'.join(sorted(ops & {'T', 'X', 'Z', 'K', 'KC', 'D'})) or 'plain'
+    feat = '+'.join(sorted(ops & {'T', 'X', 'Z', 'K', 'KC', 'D', 'W', 'G'})) or 'plain'
     return 'modes:%s:%s:%s' % (mode, why, feat)
 
 
